@@ -548,7 +548,7 @@ class MemBearerValidator(BearerTokenValidator):
         return self._v.authenticate_token(token_string)
 
 
-def build(store=None, scopes_supported=None, oidc=True, pkce_required=False, require_nonce=False, grants_enabled=None, framework=None):
+def build(store=None, scopes_supported=None, oidc=True, pkce_required=False, require_nonce=False, grants_enabled=None, framework=None, front_channel_pkce=False):
     """Assemble a provider with every built-in grant registered."""
     install_clock()
     store = store or Store()
@@ -563,7 +563,8 @@ def build(store=None, scopes_supported=None, oidc=True, pkce_required=False, req
     if "oidc_implicit" in g:
         srv.register_grant(OIDCImplicit)
     if "hybrid" in g:
-        srv.register_grant(OIDCHybrid)
+        # (optionally with the PKCE extension, as a provider that wants code_challenge on hybrid requests registers it)
+        srv.register_grant(OIDCHybrid, [CodeChallenge(required=False)] if front_channel_pkce else None)
     if "implicit" in g:
         srv.register_grant(ImplicitGrant)
     if "password" in g:
